@@ -28,8 +28,8 @@ from vf.sym.prove import prove_scalar
 from vf.sym.terms import named_ext
 from vf.sym.xda import mk_da
 
-LEVEL = "proof"
-EXPLANATION = ("the validators and the refusal branches of the decomposition / whitening / cross-covariance kernels return exactly "
+LEVEL = "other"
+EXPLANATION = ("contracts: part proved, part bounded. Proved: the validators and the refusal branches of the decomposition / whitening / cross-covariance kernels return exactly "
                "for valid arguments (all type cases, symbolic values) and the reconstruction refuses unknown mode labels; the "
                "end-to-end behaviour of every public entry point under single-fault mutations is evaluated on real models")
 n, p = named_ext("n"), named_ext("p")
